@@ -60,7 +60,8 @@ StepFailing ==
     ELSE (IF P7_ValidityPreserved THEN {} ELSE {"P7_ValidMesh"}) \cup
          (IF C11_AreaConserved THEN {} ELSE {"C11_AreaConserved"}) \cup
          (IF C11_VolumeConserved THEN {} ELSE {"C11_VolumeConserved"}) \cup
-         (IF C11_Tiling THEN {} ELSE {"C11_Tiling"})
+         (IF C11_Tiling THEN {} ELSE {"C11_Tiling"}) \cup
+         (IF C11_ConformityPreserved THEN {} ELSE {"C11_Conforming"})
 ReportStep ==
     LET f == StepFailing IN
     f = {} \/ PrintT("EMIT" \o ToJson([tid |-> tid, l |-> l', failing |-> f, drift |-> FALSE, kind |-> "step"]))
